@@ -262,6 +262,26 @@ CLAIMS: dict = {
                   'version/occurrence with decided post-conditions + z3 obligations; bounded single-fault sweep on the '
                   'real functions',
         engines=['pyvc', 'bounded']),
+    'C03': dict(
+        category='proof',
+        text='Every _export_* function of wn/_export.py (metadata, requires, tags, pronunciations, counts, examples, '
+             'definitions, sense/synset relations, lexicon-level frames, ILI definition, senses, entries, synsets, '
+             'lexicon) is executed symbolically next to its sidecar contract (contracts/spec_export.py) against the same '
+             'stubs of the query functions (results are uninterpreted functions of the arguments) and of the other '
+             '_export_* functions; for all databases and per LMF version z3 proves that the same queries are made with '
+             'the same arguments (the rowid OF THE ELEMENT and its own table for every metadata look-up, the scope) and '
+             'that the exported record is equal key by key. export() itself: _precheck, supported version, one '
+             '_export_lexicon per lexicon in order, lmf.dump of exactly that resource.',
+        note='The chain is closed by other checks, not here: what the queries return for a database produced by add '
+             '(C01), what dump/load do to the resource (C02); composing them is a hand argument. The end-to-end '
+             'round trip add -> export -> load -> re-add is only run on generated lexicons (3 resources x 4 source x 4 '
+             'export versions, compared with the source and through the public API): bounded, not counted. '
+             '_export_syntactic_behaviours_1_0 (set iteration) and _precheck are covered by the bounded sweep only. '
+             'Known findings K16 (ILIDefinition of an existing ILI), K17 (links of id-less frames in >= 1.1 exports), '
+             'K18 (frames without senses); fixed: F7, F8, F12, F13.',
+        technique='contract-based deductive verification: flow equivalence of each export function with its contract '
+                  'under query stubs (AST->VC symbolic execution, z3); bounded native export round trip',
+        engines=['pyvc', 'bounded']),
 }
 
 # property -> reason (every property that is not claimed)
